@@ -5,11 +5,12 @@ ROOT = os.path.dirname(os.path.dirname(os.path.abspath(__file__)))
 sys.path.insert(0, ROOT); sys.path.insert(0, "/repo")
 props = [json.loads(l) for l in open(os.path.join(ROOT, "properties.jsonl"))]
 NA = json.load(open(os.path.join(ROOT, "tools", "not_applicable.json")))
+REG = json.load(open(os.path.join(ROOT, "tools", "registered.json")))
 checks, na = [], []
 for p in props:
     pid = p["id"]
     mods = sorted(n[:-3] for n in os.listdir(os.path.join(ROOT, "harness")) if n.lower().startswith(pid.lower()) and n.endswith(".py"))
-    if not mods or pid in NA:
+    if not mods or pid in NA or pid not in REG:
         na.append({"property_id": pid, "reason": NA.get(pid, "no solver-based check registered for this property yet")})
         continue
     m = importlib.import_module("harness." + mods[0])
